@@ -68,6 +68,14 @@ def call(fn, *a, **kw):
         return "exc", type(e).__name__
 
 
+def rp(x):
+    """repr that never raises (the repr of a broken tiling may itself fail)"""
+    try:
+        return repr(x)
+    except Exception as e:  # pylint: disable=broad-except
+        return f"<{type(x).__name__}: repr raised {type(e).__name__}>"
+
+
 def axis_cls(i, n):
     if n == 1:
         return "only"
@@ -233,11 +241,11 @@ def run_index(case):
     how = m.tile if K == "Tiles" else (m.chy, m.chx)
     T2 = roi_tiles((H, W), how)
     if type(T2) is not type(T) or not T2 == T:
-        r.fail(f"roi_tiles:{K}", f"{case}: roi_tiles -> {T2!r} vs {T!r}")
+        r.fail(f"roi_tiles:{K}", f"{case}: roi_tiles -> {rp(T2)} vs {rp(T)}")
     if K == "Tiles":
         T3 = Tiles(wh_(W, H), wh_(m.tile[1], m.tile[0]))
         if not T3 == T or yx_of(T3.shape) != (ny, nx):
-            r.fail("Tiles:shape-spelling", f"{case}: built from Shape2d differs: {T3!r} vs {T!r}")
+            r.fail("Tiles:shape-spelling", f"{case}: built from Shape2d differs: {rp(T3)} vs {rp(T)}")
         encs = (("lists", lambda: Tiles([H, W], list(m.tile))),
                 ("numpy-ints", lambda: Tiles((np.int64(H), np.int32(W)), (np.int64(m.tile[0]), np.int16(m.tile[1])))))
     else:
@@ -255,7 +263,7 @@ def run_index(case):
         st, che = call(lambda: Te.chunks)  # noqa: B023
         if not (Te == T and T == Te) or yx_of(Te.shape) != (ny, nx) or yx_of(Te.base) != (H, W) or st != "ok" \
                 or tuple(map(tuple, che)) != (m.chy, m.chx):
-            r.fail(f"{K}:encoding:{ename}:differs", f"{case}: built from {ename}: {Te!r} chunks {che} vs {T!r}")
+            r.fail(f"{K}:encoding:{ename}:differs", f"{case}: built from {ename}: {rp(Te)} chunks {che} vs {rp(T)}")
         elif call(Te.__getitem__, (ny - 1, 0)) != call(T.__getitem__, (ny - 1, 0)):
             r.fail(f"{K}:encoding:{ename}:region", f"{case}: built from {ename}: last-row tile region differs")
     # the caller's chunk lists are not modified by construction or use
@@ -286,7 +294,7 @@ def run_index(case):
             for form, idx in forms:
                 st, got = call(T.__getitem__, idx)
                 if form == "numpy-int" and (st != "ok" or not same_roi(got, want)):
-                    r.fail(f"{K}[r,c]:numpy-int-index", f"{case}: [{idx!r}] -> {got}; want {want} as for python ints")
+                    r.fail(f"{K}[r,c]:numpy-int-index", f"{case}: [{rp(idx)}] -> {got}; want {want} as for python ints")
                 elif st != "ok":
                     r.fail(f"{K}[r,c]:raises:{form}:{pc}", f"{case}: [{idx}] raised {got}")
                 elif not same_roi(got, want):
@@ -332,10 +340,10 @@ def run_index(case):
                 st, got = call(T.locate, pix)
                 fk = "" if form == "tuple" else f":{form}"
                 if st != "ok" or tuple(map(int, got)) != want:
-                    r.fail(f"{K}.locate{fk}:{pc}", f"{case}: locate({pix!r}) -> {got} want {want}")
+                    r.fail(f"{K}.locate{fk}:{pc}", f"{case}: locate({rp(pix)}) -> {got} want {want}")
                 elif owner[y, x] != got[0] * nx + got[1]:
                     r.fail(f"{K}.locate{fk}:not-inverse:{pc}",
-                           f"{case}: locate({pix!r}) -> {got} but that tile's region does not hold the pixel")
+                           f"{case}: locate({rp(pix)}) -> {got} but that tile's region does not hold the pixel")
     for side, pix in (("above", (-1, 0)), ("left", (0, -1)), ("below", (H, 0)), ("right", (0, W)),
                       ("corner", (H, W)), ("far-below", (H + 7, 0)), ("numpy-int-right", (np.int64(0), np.int64(W))),
                       ("negative-wrap", (-H, -W))):
@@ -363,7 +371,7 @@ def run_index(case):
         r.fail(f"{K}[slices]:numpy-int-bounds", f"{case}: [np.int64(0):np.int64({ny}), np.int32({-nx}):] -> {got}")
     st, C = call(T.crop, (np.int64(ny - 1), slice(None)))
     if st != "ok" or tuple(map(tuple, C.chunks)) != (m.chy[-1:], m.chx):
-        r.fail(f"{K}.crop:numpy-int-index", f"{case}: crop((np.int64({ny - 1}), :)) -> {C!r}; want chunks "
+        r.fail(f"{K}.crop:numpy-int-index", f"{case}: crop((np.int64({ny - 1}), :)) -> {rp(C)}; want chunks "
                                             f"{(m.chy[-1:], m.chx)} as for the python int")
     return r
 
@@ -438,7 +446,7 @@ def run_crop(case, thorough=False):
             r.fail(f"{key}:shape", f"{case}: crop({idx}).shape = {C2.shape} want {(b - a, d - c)}")
         elif blk in canon and not (C2 == canon[blk] and canon[blk] == C2):
             r.fail(f"{key}:differs-from-explicit-spelling",
-                   f"{case}: crop({idx}) = {C2!r} but crop([{a}:{b},{c}:{d}]) = {canon[blk]!r}")
+                   f"{case}: crop({idx}) = {rp(C2)} but crop([{a}:{b},{c}:{d}]) = {rp(canon[blk])}")
 
     for a, b in by:
         for c, d in bx:
@@ -463,7 +471,7 @@ def run_crop(case, thorough=False):
                     r.fail(f"{K}.crop:chunks:{bc}",
                            f"{case}: crop({roi}).chunks={ch} want {(m.chy[a:b], m.chx[c:d])}")
                 if not (C == F and F == C):
-                    r.fail(f"{K}.crop:not-fresh-tiling:{bc}", f"{case}: crop({roi}) = {C!r} != fresh {F!r}")
+                    r.fail(f"{K}.crop:not-fresh-tiling:{bc}", f"{case}: crop({roi}) = {rp(C)} != fresh {rp(F)}")
                 oy0, ox0 = want[0].start, want[1].start
                 for i in range(b - a):
                     for j in range(d - c):
@@ -504,7 +512,7 @@ def run_crop(case, thorough=False):
     r.counts["spelled_crops"] = n_cr
     # the parent tiling is what it was before all these crops (no state shared with the crops)
     if not (T == m.build()) or tuple(map(tuple, T.chunks)) != (m.chy, m.chx):
-        r.fail(f"{K}.crop:parent-changed", f"{case}: after the crops the parent is {T!r} chunks {T.chunks}")
+        r.fail(f"{K}.crop:parent-changed", f"{case}: after the crops the parent is {rp(T)} chunks {T.chunks}")
     return r
 
 
@@ -527,11 +535,11 @@ def judge_clip(r, m, T, sel, K):
     want_new = [(y - a, x - c) for y, x in sel]
     if [tuple(map(int, v)) for v in new] != want_new:
         dup = ":duplicates" if len(set(sel)) < len(sel) else ""
-        r.fail(f"clip_tiles:{K}:new-index{dup}", f"{case}: clip_tiles({given!r}) idx={new} want {want_new}")
+        r.fail(f"clip_tiles:{K}:new-index{dup}", f"{case}: clip_tiles({rp(given)}) idx={new} want {want_new}")
         return
     F = m.fresh(a, b, c, d)
     if type(C) is not type(T) or not C == F:
-        r.fail(f"clip_tiles:{K}:not-fresh-tiling", f"{case}: clip_tiles({sel}) -> {C!r} != fresh {F!r}")
+        r.fail(f"clip_tiles:{K}:not-fresh-tiling", f"{case}: clip_tiles({sel}) -> {rp(C)} != fresh {rp(F)}")
     if tuple(map(tuple, C.chunks)) != (m.chy[a:b], m.chx[c:d]):
         r.fail(f"clip_tiles:{K}:chunks", f"{case}: clip_tiles({sel}).chunks={C.chunks}")
     org = m.region(a, b, c, d)
@@ -575,7 +583,7 @@ def run_clip(case, thorough=False):
     st, got = call(clip_tiles, T, [])  # clipping to nothing is not defined by the statement: observation
     r.counts = {f"obs:clip_tiles:empty-selection:{'raises-' + got if st == 'exc' else 'returns'}": 1}
     if not (T == m.build()) or tuple(map(tuple, T.chunks)) != (m.chy, m.chx):
-        r.fail(f"clip_tiles:{K}:parent-changed", f"{case}: after clipping the parent is {T!r}")
+        r.fail(f"clip_tiles:{K}:parent-changed", f"{case}: after clipping the parent is {rp(T)}")
     return r
 
 
@@ -645,7 +653,7 @@ def run_gbt(case, thorough=False):
     for ename, how in encs:
         st, ge = call(GeoboxTiles, base, how)
         if st != "ok" or not (ge == gbt and gbt == ge) or tuple(map(tuple, ge.chunks)) != (m.chy, m.chx):
-            r.fail(f"{K}:encoding:{ename}", f"{case}: GeoboxTiles(base, {how!r}) -> {ge!r}; differs from {gbt!r}")
+            r.fail(f"{K}:encoding:{ename}", f"{case}: GeoboxTiles(base, {rp(how)}) -> {rp(ge)}; differs from {rp(gbt)}")
 
     tiles = [(y, x) for y in range(ny) for x in range(nx)]
     for y, x in tiles:
@@ -657,7 +665,7 @@ def run_gbt(case, thorough=False):
                 r.fail(f"{K}[r,c]:raises:{form}", f"{case}: [{idx}] raised {got}")
                 continue
             if not (got == want):
-                r.fail(f"{K}[r,c]:geobox:{form}:{pc}", f"{case}: [{idx}] -> {got!r} want {want!r}")
+                r.fail(f"{K}[r,c]:geobox:{form}:{pc}", f"{case}: [{idx}] -> {rp(got)} want {rp(want)}")
                 continue
             # same world location for the tile's corner pixels as seen from the parent
             hh, ww = want.shape
@@ -680,7 +688,7 @@ def run_gbt(case, thorough=False):
             r.fail(f"{K}.roi:entry-point-differs", f"{case}: roi[{(y, x)}] / roi.tile_shape differ from the tile")
         st, got = call(gbt.__getitem__, (np.int64(y), np.int32(x - nx)))
         if st != "ok" or not (got == want):
-            r.fail(f"{K}[r,c]:numpy-int-index", f"{case}: [(np.int64({y}), np.int32({x - nx}))] -> {got!r} want {want!r}")
+            r.fail(f"{K}[r,c]:numpy-int-index", f"{case}: [(np.int64({y}), np.int32({x - nx}))] -> {rp(got)} want {rp(want)}")
         st, got = call(gbt.pix_bbox, (y, x))
         wb = (reg[1].start, reg[0].start, reg[1].stop, reg[0].stop)
         if st != "ok" or tuple(got.bbox) != wb or got.crs is not None:
@@ -692,7 +700,7 @@ def run_gbt(case, thorough=False):
             st, got = call(fn, idx)
             if not (st == "exc" and got == "IndexError"):
                 r.fail(f"{K}{name}:out-of-range:{side}",
-                       f"{case}: {name}({idx}) -> {got!r}; documented to raise IndexError outside [(0,0),{(ny, nx)})")
+                       f"{case}: {name}({idx}) -> {rp(got)}; documented to raise IndexError outside [(0,0),{(ny, nx)})")
 
     # blocks of tiles: lookup by slices, crop[...]; the spelling of the block is a full dimension:
     # first GeoBox: full product of the per-axis spellings for tilings with <= 2 tiles per axis, beyond that every
@@ -714,7 +722,7 @@ def run_gbt(case, thorough=False):
         sk = f"row({fy})/col({fx})"
         st, got = call(gbt.__getitem__, idx)
         if st != "ok" or not (got == want):
-            r.fail(f"{K}[block]:spelling:{sk}:geobox", f"{case}: [{idx}] -> {got!r} want {want!r}")
+            r.fail(f"{K}[block]:spelling:{sk}:geobox", f"{case}: [{idx}] -> {rp(got)} want {rp(want)}")
         st, C2 = call(lambda: gbt.crop[idx])
         n_cr += 1
         C = canon.get(blk)
@@ -722,7 +730,7 @@ def run_gbt(case, thorough=False):
             r.fail(f"{K}.crop:spelling:{sk}:raises", f"{case}: crop[{idx}] raised {C2}")
         elif not (C2.base == want):
             r.fail(f"{K}.crop:spelling:{sk}:base",
-                   f"{case}: crop[{idx}].base = {C2.base!r}; parent cropped to tiles [{a}:{b},{c}:{d}] is {want!r}")
+                   f"{case}: crop[{idx}].base = {rp(C2.base)}; parent cropped to tiles [{a}:{b},{c}:{d}] is {rp(want)}")
         elif yx_of(C2.shape) != (b - a, d - c):
             r.fail(f"{K}.crop:spelling:{sk}:shape", f"{case}: crop[{idx}].shape = {C2.shape}")
         elif tuple(map(tuple, C2.chunks)) != (m.chy[a:b], m.chx[c:d]):
@@ -737,7 +745,7 @@ def run_gbt(case, thorough=False):
                 w2, _ = want_gbox(a + i, a + i + 1, c + j, c + j + 1)
                 st, got = call(C2.__getitem__, (i, j))
                 if st != "ok" or not (got == w2):
-                    r.fail(f"{K}.crop:spelling:{sk}:rebase", f"{case}: crop[{idx}][{i},{j}] -> {got!r} want {w2!r}")
+                    r.fail(f"{K}.crop:spelling:{sk}:rebase", f"{case}: crop[{idx}][{i},{j}] -> {rp(got)} want {rp(w2)}")
 
     for a, b in by:
         for c, d in bx:
@@ -745,14 +753,14 @@ def run_gbt(case, thorough=False):
             roi = (slice(a, b), slice(c, d))
             st, got = call(gbt.__getitem__, roi)
             if st != "ok" or not (got == want):
-                r.fail(f"{K}[slices]:geobox", f"{case}: [{roi}] -> {got!r} want {want!r}")
+                r.fail(f"{K}[slices]:geobox", f"{case}: [{roi}] -> {rp(got)} want {rp(want)}")
             st, C = call(lambda: gbt.crop[roi])  # noqa: B023
             if st != "ok":
                 r.fail(f"{K}.crop:raises", f"{case}: crop[{roi}] raised {C}")
             else:
                 canon[(a, b, c, d)] = C
                 if not (C.base == want):
-                    r.fail(f"{K}.crop:base", f"{case}: crop[{roi}].base = {C.base!r} want {want!r}")
+                    r.fail(f"{K}.crop:base", f"{case}: crop[{roi}].base = {rp(C.base)} want {rp(want)}")
                 if yx_of(C.shape) != (b - a, d - c) or tuple(map(tuple, C.chunks)) != (m.chy[a:b], m.chx[c:d]):
                     r.fail(f"{K}.crop:chunks", f"{case}: crop[{roi}]: shape {C.shape} chunks {C.chunks}")
                 Fg = GeoboxTiles(want, m.tile if m.K == "Tiles" else (m.chy[a:b], m.chx[c:d]))
@@ -763,7 +771,7 @@ def run_gbt(case, thorough=False):
                         w2, _ = want_gbox(a + i, a + i + 1, c + j, c + j + 1)
                         st, got = call(C.__getitem__, (i, j))
                         if st != "ok" or not (got == w2):
-                            r.fail(f"{K}.crop:rebase", f"{case}: crop[{roi}][{i},{j}] -> {got!r} want {w2!r}")
+                            r.fail(f"{K}.crop:rebase", f"{case}: crop[{roi}][{i},{j}] -> {rp(got)} want {rp(w2)}")
             if full_sp:
                 for iy, (fy, sy) in enumerate(sp_y[(a, b)]):
                     for ix, (fx, sx) in enumerate(sp_x[(c, d)]):
@@ -787,7 +795,7 @@ def run_gbt(case, thorough=False):
         st, res = call(gbt.clip, sel)
         if st != "ok" or [tuple(map(int, v)) for v in res[1]] != corners or not (res[0].base == wantc) \
                 or tuple(map(tuple, res[0].chunks)) != (m.chy, m.chx):
-            r.fail(f"{K}.clip:selection:{ename}", f"{case}: clip({sel!r}) -> {res!r}; want the whole tiling and {corners}")
+            r.fail(f"{K}.clip:selection:{ename}", f"{case}: clip({rp(sel)}) -> {rp(res)}; want the whole tiling and {corners}")
 
     # clip to every ordered pair of tiles
     for t1 in tiles:
@@ -808,18 +816,18 @@ def run_gbt(case, thorough=False):
                 r.fail(f"{K}.clip:new-index", f"{case}: clip({sel}) idx {new} want {wn}")
                 continue
             if not (C.base == want):
-                r.fail(f"{K}.clip:base", f"{case}: clip({sel}).base = {C.base!r} want {want!r}")
+                r.fail(f"{K}.clip:base", f"{case}: clip({sel}).base = {rp(C.base)} want {rp(want)}")
             if tuple(map(tuple, C.chunks)) != (m.chy[a:b], m.chx[c:d]):
                 r.fail(f"{K}.clip:chunks", f"{case}: clip({sel}).chunks = {C.chunks}")
             for (y, x), nidx in zip(sel, wn):
                 w2, _ = want_gbox(y, y + 1, x, x + 1)
                 st, got = call(C.__getitem__, nidx)
                 if st != "ok" or not (got == w2):
-                    r.fail(f"{K}.clip:rebase", f"{case}: clip({sel})[{nidx}] -> {got!r}; parent tile {(y, x)} is {w2!r}")
+                    r.fail(f"{K}.clip:rebase", f"{case}: clip({sel})[{nidx}] -> {rp(got)}; parent tile {(y, x)} is {rp(w2)}")
     # the parent is what it was before all crops and clips
     if not (gbt == GeoboxTiles(GeoBox((m.H, m.W), A, crs), m.tile if m.K == "Tiles" else (m.chy, m.chx))) \
             or tuple(map(tuple, gbt.chunks)) != (m.chy, m.chx):
-        r.fail(f"{K}:parent-changed", f"{case}: after crops and clips the parent is {gbt!r} on {gbt.base!r}")
+        r.fail(f"{K}:parent-changed", f"{case}: after crops and clips the parent is {rp(gbt)} on {rp(gbt.base)}")
     return r
 
 
@@ -1118,7 +1126,7 @@ def run_asm_nd(case):
         if st == "ok" and same_values(got, exp) and got.dtype == np.dtype("float32"):
             return
         what = f"raised {got}" if st != "ok" else f"-> shape {got.shape} {got.tolist()}"
-        r.fail(key, f"{case}: asm[{roi!r}] {what}; numpy mosaic window: shape {exp.shape} {exp.tolist()}")
+        r.fail(key, f"{case}: asm[{rp(roi)}] {what}; numpy mosaic window: shape {exp.shape} {exp.tolist()}")
 
     # full-length index: every combination of extra-axis index forms
     for pcomb in itertools.product(EXTRA_IDX, repeat=len(pre)):
@@ -1541,8 +1549,8 @@ def run_asm_mixed(case):
             if not cell_ok(g, e, f):
                 what = "fill" if isinstance(e, str) else "values"
                 r.fail(f"{key}:{what}",
-                       f"{case}: {tag}({roi}) ({got.dtype}) cell {i}: got {g!r}, exact mosaic value {e!r}"
-                       + (f" (numpy's promotion to {Rdt} gives {f!r})" if e != f else ""))
+                       f"{case}: {tag}({roi}) ({got.dtype}) cell {i}: got {rp(g)}, exact mosaic value {rp(e)}"
+                       + (f" (numpy's promotion to {Rdt} gives {rp(f)})" if e != f else ""))
                 return False
         return True
 
@@ -1770,6 +1778,14 @@ def main(ctx):
         "assembler_windows": "every 0<=a<=b<=N per axis; every spelling in {None}+[-N,N] and ints on 3 layouts",
         "assembler_axes": list(CFGS),
         "dtypes": list(DT.values()), "fills": list(FILLS), "explicit_dtype": [str(d) for d in OUT_DT],
+        "tilings_extra": f"layouts {list(EXTRA_LAYOUTS)} and transposes; zero-length chunks: every tuple over {{0,1,2}} of "
+                         "length 2..3 holding a zero x each other and 3 plain layouts; large: 1800 chunks / 70 200 px, "
+                         "3077 regular tiles, 60x50 chunks (every tile, every pixel)",
+        "index_encodings": "tile index / pixel as tuple, Index2d, numpy ints; slice bounds as numpy ints; tilings built "
+                           "from tuples, lists, list of lists, numpy arrays, numpy ints; selections as list of tuples / "
+                           "lists, tuple of tuples, numpy array, with duplicates",
+        "assembler_block_encodings": f"{list(ENCODINGS)} x layouts {list(ENC_LAYOUTS)} x every non-empty subset x "
+                                     f"{list(CFGS)} x {{int16, float32 with a NaN inside}}",
         "assembler_mixed_dtypes": f"ordered pairs of {list(MIX_DT)} x both insertion orders; ordered triples of "
                                   f"{list(MIX_DT3) if q else list(MIX_DT3) + ['uint16', 'int64', 'float64']} x all 6 "
                                   "insertion orders; block values: min, max, -1 (max-1 if unsigned), 1 / for floats "
@@ -1790,6 +1806,14 @@ def main(ctx):
         "axes are squeezed); a 2-tuple index is the Y/X window whatever the axis position (explicit branch)",
         "BlockAssembler without blocks is 2-d float32 (repo test); N-d configurations need at least one block",
         "window indices lie in [-N, N]; steps are not used",
+        "a numpy integer (np.int64 / np.int32) used as tile index, pixel, slice bound, selection entry, window index "
+        "or block key means the same as the python int of that value (numpy's own indexing semantics)",
+        "the array returned by extract / [] belongs to the caller: it never shares memory with a block and writing "
+        "into it changes neither later answers nor the caller's blocks; blocks, the blocks mapping and chunk lists "
+        "passed in are left as they were",
+        "empty rectangles (base 0 on an axis, empty chunk tuples) and clipping to an empty selection are outside "
+        "the stated domain: recorded under observations only; negative pixel coordinates in locate raise IndexError "
+        "(repo test), they do not wrap",
         "result dtype: equals the explicit dtype; else equals numpy's promotion of the block dtypes (np.result_type) "
         "when no fill is given or np.can_cast(np.min_scalar_type(fill), that dtype, 'safe'); otherwise only the "
         "values are judged (every block value and the fill value must come back exactly, so the dtype holds them)",
